@@ -935,20 +935,17 @@ Fixpoint take_trace (obs : list (list Z)) : list (list Z) * list (list Z) :=
 
 Definition sel (i : nat) (l : list (nat * Z)) : list Z := map snd (filter (fun x => Nat.eqb i (fst x)) l).
 
-Definition result_line (obs : list (list Z)) (i : nat) : option (list Z) :=
-  match filter (fun l => match l with a :: b :: _ => (a =? Z.of_nat i) && (1 <=? b) && (b <=? 6) | _ => false end) obs with
-  | (_ :: _ :: r) :: _ => Some r
+(* layout of an observation: trace lines, an optional deadlock line "777 stuck..", one result line per thread in thread
+   order ("tid kind results.."), the final line "9 size drained.." *)
+Definition result_line (lines : list (list Z)) (i : nat) : option (list Z) :=
+  match nth i lines [] with
+  | a :: b :: r => if (a =? Z.of_nat i) && (1 <=? b) && (b <=? 6) then Some r else None
   | _ => None
   end.
-Definition final_line (obs : list (list Z)) : option (list Z) :=
-  match filter (fun l => match l with 9 :: _ :: _ => true | _ => false end) obs with
-  | (_ :: r) :: _ => Some r
-  | _ => None
-  end.
-Definition stuck_ids (obs : list (list Z)) : list Z :=
-  match filter (fun l => match l with 777 :: _ => true | _ => false end) obs with
-  | (_ :: r) :: _ => r
-  | _ => []
+Definition split_stuck (rest : list (list Z)) : list Z * list (list Z) :=
+  match rest with
+  | (777 :: st) :: r => (st, r)
+  | _ => ([], rest)
   end.
 
 Fixpoint zlist_eqb' (a b : list Z) : bool :=
@@ -1000,10 +997,12 @@ Definition tq_oracle (lim : bool) (ops obs : list (list Z)) : bool :=
   | Some limit =>
       let thrs := flat_map (t_decode_thr lim) ops in
       let '(tr, rest) := take_trace obs in
+      let '(stuck, rest1) := split_stuck rest in
       let a := areplay thrs (a_init limit (length thrs)) tr in
-      threads_ok lim thrs a rest (stuck_ids rest) thrs 0
-      && match final_line rest with
-         | Some (sz :: drained) => (sz =? a_size a) && zlist_eqb' drained (map fst (a_fifo a))
+      Nat.eqb (length rest1) (S (length thrs))
+      && threads_ok lim thrs a (firstn (length thrs) rest1) stuck thrs 0
+      && match nth (length thrs) rest1 [] with
+         | 9 :: sz :: drained => (sz =? a_size a) && zlist_eqb' drained (map fst (a_fifo a))
          | _ => false
          end
   end.
